@@ -12,6 +12,10 @@ mod c08;
 mod c09;
 mod c16;
 mod c18;
+mod scene;
+mod c10;
+mod c14;
+mod c11;
 
 fn main() {
     let args: Vec<String> = std::env::args().collect();
@@ -37,6 +41,9 @@ fn main() {
         "C09" => c09::main(tier, seed, n),
         "C16" => c16::main(tier, seed, n),
         "C18" => c18::main(tier, seed, n),
+        "C10" => c10::main(tier, seed, n),
+        "C14" => c14::main(tier, seed, n),
+        "C11" => c11::main(tier, seed, n),
         p => { eprintln!("unknown property {}", p); std::process::exit(2); }
     }
 }
